@@ -15,6 +15,8 @@ CONSTANTS Sizes,      \* value sizes to insert (some above the inline limit)
           ShrinkFrom, \* ... and only removals / overwrites from this step on (0, large = no phases)
           AppendOnly, \* explore only appends: every element-size stream (bulk-build sources, C17)
           Persist,    \* also explore commit (both kinds, 1..3 workers), cache drop and crash (abandon + reopen) events
+          WithTree,   \* FALSE (walk generation): layer A alone - the tree is not computed (simulating layer C costs seconds per step
+                      \* on trees of a few hundred elements; the walks are judged on the real code, layer C is checked breadth-first)
           EmitDepth,  \* simulation: print the history of a walk when it reaches this length (0 = off)
           FanFrom     \* simulation: print the history at every length FanFrom..EmitDepth; inside that window all inserts, overwrites and
                       \* removals are ONE action, so that TLC's simulator generates (and prints) the complete one-step closure of every
@@ -33,27 +35,27 @@ Step(o) == hist' = Append(hist, o) /\ Emit(hist')
 NoTree0 == [k |-> "none"]
 Init == tree = EmptyTree /\ seq = <<>> /\ nextId = 1 /\ hist = <<>> /\ res = Ok(0) /\ ctree = NoTree0 /\ cseq = <<>>
 
-N == Count(tree)
+N == IF WithTree THEN Count(tree) ELSE Len(seq)
 
 Insert(i, vsz) ==
   /\ N < MaxElems
   /\ LET x == Elem(vsz)  a == AIns(seq, i, x.id) IN
      /\ seq' = a.s /\ res' = a.r
-     /\ tree' = IF a.r.class = "ok" THEN TInsert(tree, i, x) ELSE tree
+     /\ tree' = IF WithTree /\ a.r.class = "ok" THEN TInsert(tree, i, x) ELSE tree
      /\ nextId' = nextId + 1 /\ UNCHANGED <<ctree, cseq>>
      /\ Step(<<"ins", i, x.id, vsz>>)
 
 Set(i, vsz) ==
   /\ LET x == Elem(vsz)  a == ASet(seq, i, x.id) IN
      /\ seq' = a.s /\ res' = a.r
-     /\ tree' = IF a.r.class = "ok" THEN TSet(tree, i, x) ELSE tree
+     /\ tree' = IF WithTree /\ a.r.class = "ok" THEN TSet(tree, i, x) ELSE tree
      /\ nextId' = nextId + 1 /\ UNCHANGED <<ctree, cseq>>
      /\ Step(<<"set", i, x.id, vsz>>)
 
 Remove(i) ==
   /\ LET a == ARem(seq, i) IN
      /\ seq' = a.s /\ res' = a.r
-     /\ tree' = IF a.r.class = "ok" THEN TRemove(tree, i) ELSE tree
+     /\ tree' = IF WithTree /\ a.r.class = "ok" THEN TRemove(tree, i) ELSE tree
      /\ UNCHANGED <<nextId, ctree, cseq>>
      /\ Step(<<"rem", i>>)
 
@@ -69,7 +71,7 @@ SetType(ti) ==
 
 Pop ==
   /\ N > 0 /\ AllowPop
-  /\ seq' = <<>> /\ tree' = TPop(tree) /\ res' = Ok(0) /\ UNCHANGED <<nextId, ctree, cseq>>
+  /\ seq' = <<>> /\ tree' = (IF WithTree THEN TPop(tree) ELSE tree) /\ res' = Ok(0) /\ UNCHANGED <<nextId, ctree, cseq>>
   /\ Step(<<"pop">>)
 
 NoTree == [k |-> "none"]
